@@ -67,6 +67,11 @@ func getNodeByPathNodes(dir *Dir, pathNodes []string) (node os.FileInfo, err err
 		nodeName string
 		i        = 0
 	)
+	for _, nodeName = range pathNodes {
+		if nodeName == parentDir {
+			return nil, goaterr.Errorf("%s: break isolation space", strings.Join(pathNodes, "/"))
+		}
+	}
 	for ; i < len(pathNodes) && pathNodes[i] == ""; i++ {
 	}
 	if len(pathNodes) == i {
